@@ -7,6 +7,7 @@ for l in open('/verif/properties.jsonl'):
 print(f"""You are helping test a verification tool by producing realistic *bugs* (mutations) for the open-source Python project Starsim (agent-based epidemic simulation framework, version 2.2.0).
 
 You have your own scratch git worktree of the project at /tmp/wt_{pid} (a git worktree; work ONLY there; never touch /repo or /verif or any other directory except /tmp/wt_{pid} and new files under /tmp/mut_{pid}/).
+Do NOT use `git stash` (the stash is shared with other worktrees of the same repository); to compare with the clean tree use `git diff > file`, `git checkout -- .`, `git apply file`.
 Run Python as:  cd /tmp/wt_{pid} && PYTHONPATH=/tmp/wt_{pid} /venv/bin/python ...   (numpy, scipy, sciris, pandas are installed; there is no network).
 The project's test-suite is run with:  cd /tmp/wt_{pid} && PYTHONPATH=/tmp/wt_{pid} /venv/bin/python -m pytest -q -p no:cacheprovider --timeout=900 -x tests  (takes ~2 minutes; test_loop_plotting is known to fail already, ignore it; ignore any 'conda' warning lines).
 
